@@ -23,7 +23,8 @@ RULE = (
     "fractions.Fraction on the decimal literals - exactly. (C) FractionScalar(fv,u): GetValue(v), db.Convert of a "
     "FractionValue, the six comparisons and IsValid (category with limits) against Scalar(float(fv),u), over unit pairs "
     "of every quantity type (one rotation per draw in quick, all 37 040 pairs in thorough) incl. affine units, "
-    "1e-12*S plus the library's documented 1e-8 absolute rounding of the converted numerator. Non-trivial = non-zero "
+    "1e-12*S plus the library's documented 1e-8 absolute rounding of the converted numerator; the same on a database "
+    "registered at run time (affine units given by string formulas and by callables). Non-trivial = non-zero "
     "fraction part with non-integer number, or a conversion between different units; key = (operation, digit class, "
     "unit pair)."
 )
@@ -44,6 +45,7 @@ def plan(tier, seed):
     n = 4 if tier == "quick" else 8
     for i in range(n):
         specs.append({"part": "scalar", "tier": tier, "seed": seed, "i": i, "n": n})
+    specs.append({"part": "scalar_project", "tier": tier, "seed": seed})
     return specs
 
 
@@ -467,6 +469,35 @@ def run_shard(spec, ctx):
 
         core.hunt(ctx, t, seed, spec["n"], max_root_causes=8)
         return
+    if spec["part"] == "scalar_project":
+        # units registered by the user at run time (string formulas and plain callables, with and without offsets):
+        # a FractionScalar converts like the Scalar holding float(value) there too
+        from bv.props import c02
+
+        pdb = c02.variant_db()
+        pdb.AddUnit("temperature", "Reaumur-like", "degRe", lambda x: (x - 100.0) * 0.8, lambda x: x / 0.8 + 100.0)
+        pdb.AddUnit("length", "gauge length", "m(g)", "%f - 10.0", "%f + 10.0")
+        with env.pushed(pdb):
+            sc = ScalarChecker(ctx, pdb)
+            fr = st.tuples(st.one_of(st.integers(0, 999), st.integers(1, 99999).map(lambda k: k / 100.0)), st.integers(0, 99), st.sampled_from([2, 4, 8, 3, 7]), st.sampled_from([1, 1, -1]))
+
+            def tp():
+                @given(fr)
+                def test(f1):
+                    number, num, den, sign = f1
+                    for qt in sorted(pdb.quantity_types):
+                        units = [i.unit for i in pdb.quantity_types[qt]]
+                        for u in units:
+                            for v in units:
+                                for c in sc.cats[qt]:
+                                    sc.check({"qt": qt, "u": u, "v": v, "c": c, "number": sign * number, "num": num, "den": den, "db": "project"})
+                    ctx.cls("project_database_sweeps")
+
+                return test
+
+            core.hunt(ctx, tp, seed, 6 if tier == "quick" else 60, shrink=False)
+        ctx.exhaustive["FractionScalar vs Scalar on a run-time registered database (affine units by string formula and by callable)"] = "all pairs"
+        return
     db = env.new_db("posc")
     db.AddCategory("bv c18 limited", "length", min_value=0.0, max_value=100.0, is_max_exclusive=True, default_unit="m", default_value=1.0)
     with env.pushed(db):
@@ -512,6 +543,16 @@ def replay(case, ctx):
         return core.replay_guarded(ctx, FractionChecker(ctx).check, case)
     if "a" in case:
         return core.replay_guarded(ctx, ValueChecker(ctx).check_value, case)
+    if case.get("db") == "project":
+        from bv.props import c02
+
+        pdb = c02.variant_db()
+        pdb.AddUnit("temperature", "Reaumur-like", "degRe", lambda x: (x - 100.0) * 0.8, lambda x: x / 0.8 + 100.0)
+        pdb.AddUnit("length", "gauge length", "m(g)", "%f - 10.0", "%f + 10.0")
+        with env.pushed(pdb):
+            sc = ScalarChecker(ctx, pdb)
+            sc.check(case)
+        return ["%s: %s" % (k, v["msg"]) for k, v in ctx.violations.items()]
     db = env.new_db("posc")
     db.AddCategory("bv c18 limited", "length", min_value=0.0, max_value=100.0, is_max_exclusive=True, default_unit="m", default_value=1.0)
     with env.pushed(db):
